@@ -22,7 +22,7 @@ UNDECIDED_CLAUSES = {
             "read_tcp_bytes (short reads, early close) and the listen loops",
             "'answer section holds only records for the question name or its CNAME chain': proved for the local (non-recursive) arm of dns_resolver::resolve and carried to the reply's answer section; ASSUMED for the results of resolve_recursive / resolve_forwarding (async-recursive, network); ANY questions excluded (see C10)",
             "that the authority section, AA and RCODE are exactly those the resolver produced is read off the match in resolve_and_build_response, not stated as a clause (the resolver's result is not a function of its arguments)"],
-    "C01": ["ANY questions in recursive mode: that upstream records never join local records of the same name and type is proved for resolve_local and the forwarding resolver (local_first), for the recursive resolver the prioritising_merge call sites are read, not stated as a clause (an upstream CNAME answer appends its tail)",
+    "C01": [
             "'no upstream server is contacted': proved in the form 'a local answer fixes the result of the recursive and of the forwarding resolver' (synchronous reading, R32); the exchange itself is not observable in a contract",
             "'names beneath a delegation point excepted' (the exception itself; zone selection - the most specific enclosing zone - is proved for Zones::get / Zones::resolve in unit zone_lookup)",
             "NameError rcode only for AuthoritativeNameError in main.rs (see C09)"],
